@@ -304,7 +304,7 @@ def s_body(draw):
             v = 0
         steps.append({"how": how, "kind": kind, "matcher": m, "value": v, "message": draw(ANNOT),
                       "verbose": draw(st.booleans())})
-    return {"steps": steps, "user_details": draw(st.lists(st.sampled_from(["foo", "bar", "Failed expectation", "traceback"]), max_size=2, unique=True))}
+    return {"steps": steps, "ending": draw(st.sampled_from(["none", "none", "skip", "xfail", "teardown-skip"])), "user_details": draw(st.lists(st.sampled_from(["foo", "bar", "Failed expectation", "traceback"]), max_size=2, unique=True))}
 
 
 def run_body(spec):
@@ -373,6 +373,12 @@ def _run_body(spec):
                     raise
                 log.append(("after", i))
             log.append(("end",))
+            if spec.get("ending") == "skip":
+                self.skipTest("skipping at the end")
+            elif spec.get("ending") == "xfail":
+                self.expectFailure("known breakage", self.assertEqual, 1, 2)
+            elif spec.get("ending") == "teardown-skip":
+                self.addCleanup(self.skipTest, "skip from a cleanup")
 
     res = Ext()
     T("test_body").run(res)
@@ -409,6 +415,12 @@ def _run_body(spec):
     else:
         name = outs[0][0]
         want_name = "addFailure" if (stop is not None or any_expect_mismatch) else "addSuccess"
+        ending = spec.get("ending", "none")
+        if stop is None and ending != "none":
+            if any_expect_mismatch:      # the delayed failure must still make the test fail
+                want_name = name if name in ("addFailure", "addError") else "addFailure"
+            else:
+                want_name = {"skip": "addSkip", "xfail": "addExpectedFailure", "teardown-skip": "addSkip"}[ending]
         if name != want_name:
             vs.append(V("outcome", "%s-instead-of-%s" % (name, want_name), "outcome %s, expected %s (expectThat mismatch=%s, stopped at %r)" % (
                 name, want_name, any_expect_mismatch, stop)))
@@ -428,7 +440,7 @@ def _run_body(spec):
         if n_fe != n_expect:
             vs.append(V("details", "failed-expectation-count", "%d 'Failed expectation' details for %d failed expectThat; names %r" % (n_fe, n_expect, sorted(texts))))
     nt = len(steps) >= 2 and (any_expect_mismatch or stop is not None)
-    return Case(vs, nt, ["expect-mismatch" if any_expect_mismatch else "", "stopped" if stop is not None else "ran-to-end",
+    return Case(vs, nt, ["expect-mismatch" if any_expect_mismatch else "", "stopped" if stop is not None else "ran-to-end", "ending=" + spec.get("ending", "none"),
                          "details" if expected_details else ""], {"log": log[:10]})
 
 
